@@ -42,7 +42,7 @@ PURE_NAMES = {'len', 'is_empty', 'is_active', 'is_some', 'is_none', 'is_ok', 'is
               'borrow', 'borrow_mut', 'get', 'get_mut', 'get_unchecked', 'get_unchecked_mut', 'index', 'index_mut', 'as_slice', 'as_mut_slice',
               'first', 'last', 'capacity', 'contains_key', 'contains', 'type_id', 'of', 'size_of', 'as_str', 'iter', 'iter_mut', 'cast', 'add', 'offset', 'sub',
               'from_raw_parts', 'from_raw_parts_mut', 'split_first', 'split_first_mut', 'split_at', 'split_at_mut', 'split_last', 'clone', 'count_ones',
-              'wrapping_add', 'wrapping_sub', 'unchecked_add', 'unchecked_sub', 'min', 'max', 'new', 'as_slice', 'hasher', 'eq', 'ne', 'lt', 'le', 'gt', 'ge',
+              'wrapping_add', 'wrapping_sub', 'unchecked_add', 'unchecked_sub', 'overflowing_add', 'overflowing_sub', 'saturating_add', 'saturating_sub', 'min', 'max', 'new', 'as_slice', 'hasher', 'eq', 'ne', 'lt', 'le', 'gt', 'ge',
               'copied', 'cloned', 'from', 'into', 'get_unchecked_mut', 'size_hint', 'unwrap_unchecked', 'unwrap', 'expect', 'as_bytes', 'to_owned'}
 
 
@@ -1606,6 +1606,9 @@ def lin(t, depth=0):
         return lin(t[2][0], depth + 1) - lin(t[2][1], depth + 1)
     if t[0] == 'f' and t[2] == 0 and isinstance(t[1], tuple) and t[1][0] == 'bin' and t[1][1].endswith('WithOverflow'):
         return lin(t[1], depth + 1)
+    if t[0] == 'f' and t[2] == 0 and isinstance(t[1], tuple) and t[1][0] == 'call' and t[1][1].rsplit('::', 1)[-1] in ('overflowing_add', 'overflowing_sub') and len(t[1][2]) == 2:
+        a, b = lin(t[1][2][0], depth + 1), lin(t[1][2][1], depth + 1)
+        return a + b if t[1][1].endswith('add') else a - b
     if t[0] == 'cast' and t[1].startswith('IntToInt'):
         return lin(t[2], depth + 1)
     return Lin.atom(t)
